@@ -105,10 +105,10 @@ def containsSub (needle : Str) : Str → Bool
   | c :: rest => needle.isPrefixOf (c :: rest) || containsSub needle rest
 
 /-! ### tables (regenerated) -/
-def matchNs : List (Str × Str) := Gen.Mixin.matchNamespaces.map fun p => (p.1.toList, p.2.toList)
-def hasStart (name : Str) : Bool := Gen.Mixin.startHandlers.any (·.toList == name)
-def hasEnd (name : Str) : Bool := Gen.Mixin.endHandlers.any (·.toList == name)
-def canBeRelativeUri : List Str := Gen.Mixin.canBeRelativeUri.map String.toList
+def matchNs : List (Str × Str) := Gen.Mixin.matchNamespacesL
+def hasStart (name : Str) : Bool := Gen.Mixin.startHandlersL.any (· == name)
+def hasEnd (name : Str) : Bool := Gen.Mixin.endHandlersL.any (· == name)
+def canBeRelativeUri : List Str := Gen.Mixin.canBeRelativeUriL
 def keymap : Dict.Keymap := Dict.keymap
 
 /-- `FeedParserDict.__setitem__` key aliasing -/
